@@ -50,3 +50,135 @@ Example C07_complete_search_witness_nonvacuous :
   complete_search T0 {| ts_prob := P1; ts_init := s0; ts_insts := [(8%N, [])]; ts_traj := [] |} back 0 2
   = Some [(0%N, [])].
 Proof. vm_compute. reflexivity. Qed.
+
+(* ==========================================================================================================
+   LAYER A — completeness of individual compilers, proved for ALL problems of the modelled fragment (see the
+   Layer A block of Props/C06.v for the models, the hypotheses and the external parameters).
+   ========================================================================================================== *)
+Require Import UPV.Walkers.Subst UPV.Compilers.Variants UPV.Proofs.Variants_proofs.
+Require Import UPV.Compilers.LayerA_Defs UPV.Compilers.LayerA_Quant UPV.Compilers.LayerA_Inv UPV.Compilers.LayerA_Variants.
+Require Import UPV.Proofs.LayerA_Quant_proofs UPV.Proofs.LayerA_Inv_proofs UPV.Proofs.LayerA_Variants_proofs.
+
+(* QuantifiersRemover: every valid plan of the original problem is, unchanged, a valid plan of the compiled problem,
+   provided no action was left out for conflicting expanded effects ([no_action_dropped]; such an action can only be
+   applied where its conflicting effects agree at run time — the convention of C01-grounding-syntactic-conflict). *)
+Theorem C07_LA_quant_complete :
+  forall (smp : expr -> expr), smp_exact smp ->
+  forall (P : problem) (tau : N -> N), unique_ids P -> problem_wf P tau = true ->
+  forall (s0 : state) (pi : list (N * list value)),
+    no_action_dropped smp P -> bool_state P s0 -> plan_targets_total P pi ->
+    valid_plan false P s0 pi = true -> valid_plan false (quant_compile smp P) s0 pi = true.
+Proof. exact quant_complete. Qed.
+Print Assumptions C07_LA_quant_complete.
+
+(* StateInvariantsRemover / BoundedTypesRemover: the one hypothesis on the initial state is that the moved constraints
+   hold in it (which get_initial_state checks for the original problem anyway) *)
+Theorem C07_LA_sir_complete :
+  forall (smp : expr -> expr), smp_holds smp ->
+  forall P : problem, unique_ids P -> Forall (closed_cond P) (p_invs P) ->
+  forall (s0 : state) (pi : list (N * list value)),
+    all_hold false (mk_interp P s0 []) (p_invs P) = true ->
+    valid_plan false P s0 pi = true -> valid_plan false (sir_compile smp P) s0 pi = true.
+Proof. exact sir_complete. Qed.
+Print Assumptions C07_LA_sir_complete.
+
+Theorem C07_LA_btr_complete :
+  forall (smp : expr -> expr), smp_holds smp ->
+  forall P : problem, unique_ids P ->
+  forall (s0 : state) (pi : list (N * list value)),
+    all_hold false (mk_interp P s0 []) (bound_invs P) = true ->
+    valid_plan false P s0 pi = true -> valid_plan false (btr_compile smp P) s0 pi = true.
+Proof. exact btr_complete. Qed.
+Print Assumptions C07_LA_btr_complete.
+
+(* ConditionalEffectsRemover: every valid original plan has a compiled plan, not longer, that maps back to it modulo
+   steps that leave the state unchanged ([sub_noop_eq]: the variant without effects is discarded — finding
+   C37-noop-variant-dropped is exactly why "modulo" is needed).  The last hypothesis says that a variant dropped for
+   conflicting effects loses nothing; C37_conflict_drop_sound proves it when syntactically different assigned values
+   differ at run time (otherwise: finding C07-cer-syntactic-conflict-variant-dropped). *)
+Theorem C07_LA_cer_complete :
+  forall (simp_pre : list expr -> option (list expr)), simp_pre_ok simp_pre ->
+  forall (nm : N -> nat -> N) (P : problem), unique_ids (cer_compile simp_pre nm P) ->
+  forall G : state -> Prop,
+    (forall s aid a args t, G s -> lookup_action P aid = Some a -> spec_step false P s a args = Some t -> G t) ->
+    (forall s args i a, G s -> In (i, a) (p_actions P) -> Forall (cond_ok P s a args) (cond_effs (a_effs a))) ->
+    (forall s args i a, G s -> In (i, a) (p_actions P) ->
+       add_effs_ok [] [] (a_effs (ce_variant a (the_sel P s a args))) = false -> applicable P s a args = false) ->
+  forall (s0 : state) (pi : list (N * list value)), G s0 -> valid_plan false P s0 pi = true ->
+    exists pi', valid_plan false (cer_compile simp_pre nm P) s0 pi' = true /\ length pi' <= length pi /\
+                sub_noop_eq P s0 pi (vt_map_back (cer_table simp_pre nm P) pi').
+Proof. exact cer_complete. Qed.
+Print Assumptions C07_LA_cer_complete.
+
+(* DisjunctiveConditionsRemover without auxiliary goal action (bound k = 0; the fake-goal case, bound k + 1, is
+   validated per instance by complete_check above and proved at action level in C37_goals_equiv /
+   C37_fake_goal_achievable) *)
+Theorem C07_LA_dcr_complete :
+  forall (cdnf : expr -> list expr) (pre_dnf : action -> list (list expr)) (nm : N -> nat -> N)
+         (P : problem) (goals' : list expr),
+    unique_ids (dcr_compile cdnf pre_dnf nm P goals') ->
+  forall G : state -> Prop,
+    (forall s aid a args t, G s -> lookup_action P aid = Some a -> spec_step false P s a args = Some t -> G t) ->
+    (forall s args i a, G s -> In (i, a) (p_actions P) -> Forall (dnf_effect_ok cdnf P s a args) (a_effs a)) ->
+    (forall s args i a, G s -> In (i, a) (p_actions P) ->
+       existsb (all_hold false (mk_interp P s (zip_params (a_params a) args))) (pre_dnf a) =
+       all_hold false (mk_interp P s (zip_params (a_params a) args)) (a_pre a)) ->
+    (forall s, G s -> all_hold false (mk_interp P s []) goals' = all_hold false (mk_interp P s []) (p_goals P)) ->
+    (forall s args i a d, G s -> In (i, a) (p_actions P) -> In d (pre_dnf a) ->
+       add_effs_ok [] [] (a_effs (dnf_variant cdnf a d)) = false ->
+       all_hold false (mk_interp P s (zip_params (a_params a) args)) d = true -> applicable P s a args = false) ->
+  forall (s0 : state) (pi : list (N * list value)), G s0 -> valid_plan false P s0 pi = true ->
+    exists pi', valid_plan false (dcr_compile cdnf pre_dnf nm P goals') s0 pi' = true /\ length pi' <= length pi /\
+                sub_noop_eq P s0 pi (vt_map_back (dcr_table cdnf pre_dnf nm P) pi').
+Proof. exact dcr_complete. Qed.
+Print Assumptions C07_LA_dcr_complete.
+
+(* ---------------------------------------------------------------- non-vacuity (instances of Props/C06.v) *)
+Example C07_LA_quant_complete_nonvacuous :
+  no_action_dropped C06.LA.idsmp C06.LA.Pq /\ valid_plan false C06.LA.Pq C06.LA.sq [(0%N, [])] = true /\
+  valid_plan false (quant_compile C06.LA.idsmp C06.LA.Pq) C06.LA.sq [(0%N, [])] = true.
+Proof.
+  split; [intros aid a [H|[]]; inversion H; subst; vm_compute; discriminate|]. split; vm_compute; reflexivity.
+Qed.
+
+Example C07_LA_sir_btr_complete_nonvacuous :
+  all_hold false (mk_interp C06.LB.Pi C06.LB.si []) (p_invs C06.LB.Pi) = true /\
+  all_hold false (mk_interp C06.LB.Pi C06.LB.si []) (bound_invs C06.LB.Pi) = true /\
+  valid_plan false C06.LB.Pi C06.LB.si [(2%N, []); (0%N, [])] = true /\
+  valid_plan false (sir_compile C06.LA.idsmp C06.LB.Pi) C06.LB.si [(2%N, []); (0%N, [])] = true /\
+  valid_plan false (btr_compile C06.LA.idsmp C06.LB.Pi) C06.LB.si [(2%N, []); (0%N, [])] = true /\
+  (* the hypothesis on the initial state is needed: with x = 3 initially the ORIGINAL accepts the empty-effect plan
+     that never touches x only if the initial check is left to get_initial_state *)
+  (let s3 : state := fun f a => if (f =? 2)%N then Some (VNum (zq 3)) else Some (VBool true) in
+   valid_plan false C06.LB.Pi s3 [] = true /\ valid_plan false (btr_compile C06.LA.idsmp C06.LB.Pi) s3 [] = false).
+Proof. repeat split; vm_compute; reflexivity. Qed.
+
+(* a valid original plan of the conditional problem, and a DNF reading of the same problem *)
+Module LD.
+  Definition cd (c : expr) : list expr := [c].
+  Definition pd (a : action) : list (list expr) := [a_pre a].
+  Definition nm (i : N) (k : nat) : N := (20 + N.of_nat k)%N.
+  Definition G (s : state) : Prop := True.
+  Definition Pd : problem :=
+    {| p_objs := []; p_ifun := [];
+       p_fluents := p_fluents C06.LB.Pi; p_actions := [(0%N, C06.LB.setf 0%N true)];
+       p_goals := [EFluent 0%N []]; p_invs := [] |}.
+End LD.
+
+Example C07_LA_cer_complete_nonvacuous :
+  valid_plan false C06.LC.Pc C06.LC.sc0 [(0%N, [])] = true /\
+  valid_plan false (cer_compile C06.LC.sp C06.LC.nm C06.LC.Pc) C06.LC.sc0 [(10%N, [])] = true /\
+  sub_noop_eq C06.LC.Pc C06.LC.sc0 [(0%N, [])] (vt_map_back (cer_table C06.LC.sp C06.LC.nm C06.LC.Pc) [(10%N, [])]).
+Proof.
+  split; [vm_compute; reflexivity|]. split; [vm_compute; reflexivity|].
+  change (vt_map_back (cer_table C06.LC.sp C06.LC.nm C06.LC.Pc) [(10%N, [])]) with [(0%N, @nil value)].
+  eapply sne_keep; [reflexivity | reflexivity | constructor].
+Qed.
+
+Example C07_LA_dcr_complete_nonvacuous :
+  unique_ids (dcr_compile LD.cd LD.pd LD.nm LD.Pd (p_goals LD.Pd)) /\
+  map fst (p_actions (dcr_compile LD.cd LD.pd LD.nm LD.Pd (p_goals LD.Pd))) = [20%N] /\
+  valid_plan false LD.Pd C06.LB.si [(0%N, [])] = true /\
+  valid_plan false (dcr_compile LD.cd LD.pd LD.nm LD.Pd (p_goals LD.Pd)) C06.LB.si [(20%N, [])] = true /\
+  vt_map_back (dcr_table LD.cd LD.pd LD.nm LD.Pd) [(20%N, [])] = [(0%N, [])].
+Proof. split; [vm_compute; repeat constructor; intros []|]. repeat split; vm_compute; reflexivity. Qed.
